@@ -624,7 +624,9 @@ class PDA:
         """
         pda = PDA()
         for s_from in graph:
-            if isinstance(s_from, str) and s_from.startswith("starting_"):
+            if isinstance(s_from, str) and s_from.startswith("starting_") \
+                    and "is_start" not in graph.nodes[s_from]:
+                # Only the invisible nodes pointing to the start state
                 continue
             for s_to in graph[s_from]:
                 for transition in graph[s_from][s_to].values():
